@@ -26,6 +26,7 @@ def prepare(o):
     t["E"] = {tuple(e) for e in o["E"]}
     t["lang"] = {v: {k: sorted((W(p[0]), p[1]) for p in ps) for k, ps in as_map(d).items()}
                  for v, d in as_map(o["lang"]).items()}
+    t["bounds"] = sorted(o["bounds"])
     t["prefix"] = [(W(p[0]), p[1]) for p in o["prefix"]]
     t["follow"] = [(p[0], W(p[1]), p[2]) for p in o["follow"]]
     t["mult"] = [(set(m["V"]), {(e[0], W(e[1]), e[2]) for e in m["E"]}) for _, m in sorted(as_map(o["mult"]).items())]
@@ -74,15 +75,22 @@ def ops_battery(f, t, labels, start=0):
             if got != sorted(w for w, _ in want):
                 return ("enumerate_fixed_length_paths.words", "(%d, %r) = %r" % (k, v, got))
             allw += want
-        L = max(d)
-        got = sorted(f.enumerate_words(L, start_vertex=v, with_states=True))
-        if got != sorted(allw):
-            return ("enumerate_words", "(%d, %r) = %r, spec %r" % (L, v, got, sorted(allw)))
+        # enumerate_words(L) for every bound L the specification lists (0 included): each accepted word of length
+        # <= L exactly once (theorem EnumerateWordsBound: the listings by exact length, one after the other)
+        for L in t["bounds"]:
+            want = sorted(p for k in range(L + 1) for p in d[k])
+            got = sorted(f.enumerate_words(L, start_vertex=v, with_states=True))
+            if got != want:
+                return ("enumerate_words", "(%d, %r) = %r, spec %r" % (L, v, got, want))
+            got = sorted(f.enumerate_words(L, start_vertex=v))
+            if got != sorted(w for w, _ in want):
+                return ("enumerate_words.words", "(%d, %r) = %r, spec %r" % (L, v, got, sorted(w for w, _ in want)))
     if start in vs:
         d = t["lang"][start]
-        got = sorted(f.enumerate_words(max(d)))
-        if got != sorted(w for k in d for w, _ in d[k]):
-            return ("enumerate_words.default_start", "%r" % (got,))
+        for L in t["bounds"]:
+            got = sorted(f.enumerate_words(L))
+            if got != sorted(w for k in range(L + 1) for w, _ in d[k]):
+                return ("enumerate_words.default_start", "(%d) = %r" % (L, got))
     bad = unchanged("queries")
     if bad:
         return bad
